@@ -201,8 +201,9 @@ def check(prop, tier):
         common.machinery("chk: tlc=%s design=%s machinery=%s binding=%s" % (st["tlc_errors"][:2], bad, st["machinery"][:1], [(f["clause"], f["input"]) for f in mach[:3]]))
     mine = [f for f in r["findings"] if f["property"] == prop]
     extra = {}
-    if prop in ("C13", "C20"):
-        # the fix-side clauses (C13_FixPhase, C13_PhaseOrder, C20_OnlyListed) are evaluated on every fix-run trace as well
+    if prop in ("C13", "C20", "C06"):
+        # the fix-side clauses (C13_FixPhase, C13_PhaseOrder, C20_OnlyListed) and C06_AnalyzePure (every analysis of every
+        # traced fix / check run leaves the token list and the token index alone) are evaluated on every fix-run trace as well
         import fixfam
 
         fr = fixfam.collect(tier)
